@@ -876,7 +876,7 @@ PASS_THROUGH = {
     "swapaxes", "moveaxis", "broadcast_to", "broadcast_arrays", "flip", "roll", "shape", "ndim", "size", "take",
     "zeros_like", "ones_like", "empty_like", "full_like", "copyto", "may_share_memory", "shares_memory",
     "diag", "diagonal", "trace", "meshgrid", "array_split", "split", "fliplr", "flipud", "triu", "tril",
-    "einsum", "kron", "result_type", "iscomplexobj", "isrealobj", "real", "imag", "array_repr", "array_str",
+    "einsum", "kron", "resize", "fill_diagonal", "rot90", "append", "result_type", "iscomplexobj", "isrealobj", "real", "imag", "array_repr", "array_str",
     "array2string",
 }
 
